@@ -133,6 +133,31 @@ def search(ck, tier, seed):
                     sm = s[1].reshape(20000, numel).double().mean(0) if ctx is None else s[1].reshape(20000, numel).double().mean(0)
                     if float((sm - mr[1].reshape(-1).double()).abs().max()) > 0.06:
                         ck.finding("sampling:%s:sample-mean-differs-from-mean" % name, "sample mean %s vs mean() %s" % (sm.tolist(), mr[1].reshape(-1).tolist()), case)
+    # ---- the scale parameter over a wide range (log_std from -8 to 4: standard deviations 3e-4 .. 55), one dimension
+    for name in ("DiagonalNormal", "ConditionalDiagonalNormal"):
+        for ls in (-8.0, -6.0, -3.0, 2.5, 3.0, 4.0):
+            d = (normal.DiagonalNormal([1]) if name == "DiagonalNormal" else normal.ConditionalDiagonalNormal([1])).double()
+            mu = 0.3
+            ctx = None
+            if name == "DiagonalNormal":
+                with torch.no_grad():
+                    d.mean_.fill_(mu)
+                    d.log_std_.fill_(ls)
+            else:
+                ctx = torch.tensor([[mu, ls]], dtype=torch.float64)
+            sd_ = math.exp(ls)
+            g1 = np.linspace(mu - 9.5 * sd_, mu + 9.5 * sd_, 20001)
+            xs_ = torch.tensor(g1, dtype=torch.float64)[:, None]
+            ck.case(("normal-scale", name, ls), nontrivial=True)
+            with torch.no_grad():
+                lp = attempt(lambda: d.log_prob(xs_, ctx.expand(xs_.shape[0], -1)) if ctx is not None else d.log_prob(xs_))
+            if lp[0] != "ok":
+                ck.finding("log_prob-fails:%s" % name, "log_std %g: %s %s" % (ls, lp[1], lp[2]), {"search": "normal-scale", "class": name, "log_std": ls})
+                continue
+            tot = float(np.trapezoid(np.exp(lp[1].numpy()), g1))
+            if abs(tot - 1) > 1e-5:
+                ck.finding("normalisation:%s" % name, "log_std = %g (std %.3g): integrates to %r" % (ls, sd_, tot),
+                           {"search": "normal-scale", "class": name, "log_std": ls})
     # ---- MADE mixture of Gaussians: every one-dimensional conditional integrates to one; 2-D joint
     for F_ in (1, 2):
         torch.manual_seed(seed + F_)
